@@ -44,3 +44,311 @@ def contracts():
 
 
 ASSUMPTIONS = _c05.ASSUMPTIONS
+
+
+# ======================================================================================
+# edit_constant — every constant flag, class level and instance level, is back on both exits
+# ======================================================================================
+import z3
+
+from contracts import dispatch_model as dm
+from pyvc import spec as S
+from pyvc import values as vm
+from pyvc.engine import OutOfReach, Raise
+from pyvc.loops import LoopSpec
+from pyvc.objects import sym_field
+from pyvc.values import BoolV, ClsV, Conc, FuncV, Ref, Sym, TupV
+from pyvc.verify import FunctionContract
+
+EDIT_CONSTANT_REPLAY = '''import sys, os
+sys.path.insert(0, os.environ.get('PYVC_REPO', '/repo'))
+import param
+bad = []
+def flags(P, p, n):
+    inst = p._param__private.params.get(n)
+    return (P.param[n].constant, None if inst is None else inst.constant)
+def scenario(label, inst_constant, class_constant, copy_inside, raise_inside):
+    class P(param.Parameterized):
+        c = param.Number(1, constant=class_constant)
+        d = param.Number(2)
+    p, q = P(), P()
+    if inst_constant is not None:
+        p.param.c.constant = inst_constant       # instance-level copy with its own flag
+    before = flags(P, p, 'c'), flags(P, p, 'd')
+    editable = None
+    try:
+        with param.edit_constant(p):
+            try:
+                p.c = 5; editable = True
+            except TypeError:
+                editable = False
+            if copy_inside:
+                p.param.c                        # instantiates the instance-level copy inside the block
+            if raise_inside:
+                raise KeyError('boom')
+    except KeyError:
+        pass
+    after = flags(P, p, 'c'), flags(P, p, 'd')
+    want_c = before[0]
+    if before[0][1] is None and after[0][1] is not None:
+        want_c = (before[0][0], before[0][0])    # a copy made inside the block ends with the class flag
+    if editable is not True:
+        bad.append('%s: not editable inside the block' % label)
+    if after[0] != want_c or after[1] != before[1]:
+        bad.append('%s: constant flags (class, instance) before %r after %r' % (label, before, after))
+    should_be_constant = before[0][0] if before[0][1] is None else before[0][1]
+    try:
+        p.c = 7; now_constant = False
+    except TypeError:
+        now_constant = True
+    if now_constant != bool(should_be_constant):
+        bad.append('%s: p.c %s after the block' % (label, 'rejects assignment' if now_constant else 'accepts assignment'))
+    try:
+        q.c = 3; other_constant = False
+    except TypeError:
+        other_constant = True
+    if other_constant != bool(class_constant):
+        bad.append('%s: another instance %s' % (label, 'became constant' if other_constant else 'became editable'))
+for ic in (None, True, False):
+    for cc in (True, False):
+        for ci in (False, True):
+            for ri in (False, True):
+                scenario('inst=%s class=%s copy_inside=%s raise=%s' % (ic, cc, ci, ri), ic, cc, ci, ri)
+if bad:
+    print('REPRODUCED: C14 edit_constant does not restore exactly the constant flags it cleared:')
+    for b in bad[:8]:
+        print('  ', b)
+    sys.exit(1)
+print('NOT-REPRODUCED'); sys.exit(0)
+'''
+
+
+def edit_constant_contract():
+    """`with edit_constant(obj): body` — for an ARBITRARY parameter name k (Skolem), arbitrary
+    class-level table K and instance-level table N (symbolic dicts of unbounded size): on BOTH exits
+    the class-level and the instance-level `constant` flag of k are what they were on entry, and
+    only the object that answers `obj.param[k]` is made editable in between."""
+    holder = {}
+    name_of = z3.Function("pname_of", vm.V, vm.V)
+    is_inst = z3.Function("is_instance_level", vm.V, z3.BoolSort())
+
+    def configure(I):
+        I.sym_fields = {"constant"}
+
+        def objects(I, st, fv, args, kwargs, ctx):
+            return [(st, holder["K"])]
+        I.contracts["Parameters.objects"] = objects
+
+        def getitem(I, st, fv, args, kwargs, ctx):
+            # `type(obj).param[name]` is the class Parameter, `obj.param[name]` the instance-level one
+            selfv = fv.data.get("self")
+            d = holder["K"] if selfv == holder["cls_param"] else holder["N"]
+            h = st.heap[d.oid]
+            t = z3.Select(h.vals, I.term(args[0]))
+            I.U.well_typed(t)
+            return [(st, Sym(t))]
+        I.contracts["Parameters.__getitem__"] = getitem
+
+        def binop_first(I, st, op, a, b, ctx, node):
+            import ast as _ast
+            if isinstance(op, _ast.BitOr) and isinstance(a, Ref) and isinstance(b, Ref) \
+                    and st.heap[a.oid].kind == "dict" and st.heap[b.oid].kind == "dict":
+                ha, hb = st.heap[a.oid], st.heap[b.oid]
+                uk = I.U.fresh_seq("union_keys")
+                uv = z3.Const("union_vals", z3.ArraySort(vm.V, vm.V))
+                k = holder["k"]
+                holder["union"] = (uk, uv, ha.keys, ha.vals, hb.keys, hb.vals)
+                st.pc += union_facts(k)
+                # every recorded entry of `updated` is a pair (name, the object the union holds for it)
+                holder["upd_ok"] = S.fold(I, "updated_entries_ok", lambda e: z3.And(
+                    vm.ty(e) == vm.TAG["tuple"], vm.tlen(e) == 2, e == pair(I, vm.titem(e, 0), vm.titem(e, 1)),
+                    z3.Contains(uk, z3.Unit(vm.titem(e, 0))), vm.titem(e, 1) == z3.Select(uv, vm.titem(e, 0))))
+                # … and "no recorded entry is k's" (recursive spec function; membership of k's entry is its negation)
+                ck_, cn_ = z3.Select(holder["hk_vals"], k), z3.Select(holder["hn_vals"], k)
+                pk = pair(I, k, z3.If(z3.Contains(holder["n_keys0"], z3.Unit(k)), cn_, ck_))
+                holder["no_k"] = S.fold(I, "no_entry_for_k", lambda e: e != pk)
+                r = I.alloc_dict(st, keys=uk, vals=uv)
+                return [(st, r)]
+            return None
+        I.lib["$binop_first"] = binop_first
+
+        def h_type(I, st, fv, args, kwargs, ctx):
+            return [(st, holder["cls"])]
+        I.lib["type"] = h_type
+        I.lib["new:type"] = h_type
+
+    def pair(I, a, b):
+        return I.term(TupV([Sym(a), Sym(b)]))
+
+    def union_facts(t):
+        """d1 | d2 at name t: membership and the value (the right operand wins)"""
+        uk, uv, ak, av, bk, bv = holder["union"]
+        u = z3.Unit(t)
+        return [z3.Contains(uk, u) == z3.Or(z3.Contains(ak, u), z3.Contains(bk, u)),
+                z3.Select(uv, t) == z3.If(z3.Contains(bk, u), z3.Select(bv, t), z3.Select(av, t))]
+
+    def distinct_facts(t):
+        """distinct names are distinct Parameter objects; class-level and instance-level objects differ"""
+        hk, hn = holder["hk_vals"], holder["hn_vals"]
+        return [name_of(z3.Select(hk, t)) == t, name_of(z3.Select(hn, t)) == t,
+                z3.Not(is_inst(z3.Select(hk, t))), is_inst(z3.Select(hn, t))]
+
+    def setup(I, st):
+        U = I.U
+        obj = I.alloc_obj(st, "Parameterized", lazy=True, label="obj")
+        priv = I.alloc_obj(st, "_InstancePrivate", lazy=True, label="private")
+        K = I.alloc_dict(st, keys=U.fresh_seq("class_param_names"), vals=z3.Const("class_params", z3.ArraySort(vm.V, vm.V)))
+        N = I.alloc_dict(st, keys=U.fresh_seq("inst_param_names"), vals=z3.Const("inst_params", z3.ArraySort(vm.V, vm.V)))
+        st.heap[priv.oid].fields["params"] = N
+        st.heap[obj.oid].fields["_param__private"] = priv
+        par = I.alloc_obj(st, "Parameters", lazy=False, label="obj.param")
+        st.heap[par.oid].fields.update({"cls": ClsV("Parameterized"), "self": obj})
+        st.heap[obj.oid].fields["param"] = par
+        cls = I.alloc_obj(st, "ParameterizedMetaclass", lazy=True, label="type(obj)")
+        cpar = I.alloc_obj(st, "Parameters", lazy=False, label="cls.param")
+        st.heap[cpar.oid].fields.update({"cls": cls, "self": Conc(None)})
+        st.heap[cls.oid].fields["param"] = cpar
+        holder.update({"K": K, "N": N, "cls": cls, "cls_param": cpar, "k": U.fresh("some_name")})
+        hk, hn = st.heap[K.oid], st.heap[N.oid]
+        holder["hk_vals"], holder["hn_vals"] = hk.vals, hn.vals
+        k = holder["k"]
+        st.pc += distinct_facts(k)
+        F0 = sym_field(I, st, "constant")
+        holder["F0"] = F0
+        holder["n_keys0"] = hn.keys
+        # `constant` flags are booleans
+        st.pc += [S.is_bool(I, z3.Select(F0, z3.Select(hk.vals, k))), S.is_bool(I, z3.Select(F0, z3.Select(hn.vals, k)))]
+
+        def body(I, st2, fv, args, kwargs, ctx):
+            # user code: may create instance-level copies (names added to the instance table), leaves
+            # the constant flags as it finds them (rely); may raise
+            h = st2.heap[N.oid]
+            h.keys = z3.Concat(h.keys, I.U.fresh_seq("copies_made_inside"))
+            Fb = sym_field(I, st2, "constant")
+            st2.ghost["flags_in_body"] = Fb
+            # a copy made inside the block is a copy of the class-level Parameter as it is then
+            kk = holder["k"]
+            ck_, cn_ = z3.Select(holder["hk_vals"], kk), z3.Select(holder["hn_vals"], kk)
+            copied = z3.And(z3.Not(z3.Contains(holder["n_keys0"], z3.Unit(kk))), z3.Contains(h.keys, z3.Unit(kk)))
+            st2.ghost["F_constant"] = z3.Store(Fb, cn_, z3.If(copied, z3.Select(Fb, ck_), z3.Select(Fb, cn_)))
+            q = st2.fork()
+            return [(st2, Conc(None)), (q, Raise("$User", origin="body"))]
+        I.lib["__BODY__"] = body
+        return {"obj": obj, "K": K, "N": N, "env": {"o": obj, "__BODY__": FuncV("builtin", name="__BODY__", self=None)},
+                "symbols": {}}
+
+    def runner(I, st, info, ctx):
+        from contracts.c05 import outcomes
+        stmt = dm.with_stmt("edit_constant(o)")
+        st.env = dict(info["env"])
+        c = dict(ctx)
+        c["module"] = I.src.modules["param.parameterized"]
+        c["qual"] = "<harness>"
+        return outcomes(I.exec_stmt(stmt, st, c))
+
+    def flags(I, st):
+        return sym_field(I, st, "constant")
+
+    def parts(I, st):
+        k = holder["k"]
+        ck, cn = z3.Select(holder["hk_vals"], k), z3.Select(holder["hn_vals"], k)
+        in_n0 = z3.Contains(holder["n_keys0"], z3.Unit(k))
+        target = z3.If(in_n0, cn, ck)          # the object `obj.param[k]` answers on entry
+        other = z3.If(in_n0, ck, cn)
+        upd = st.env.get("updated")
+        useq = st.heap[upd.oid].seq if isinstance(upd, Ref) else z3.Empty(vm.SeqV)
+        return k, ck, cn, in_n0, target, other, useq, vm.truthy(z3.Select(holder["F0"], target))
+
+    def unfold_append(I, f, seq):
+        """defining equation of the fold at `s ++ [e]` (instantiated for the term at hand)"""
+        if z3.is_app(seq) and seq.decl().kind() == z3.Z3_OP_SEQ_CONCAT and seq.num_args() >= 2:
+            last = seq.arg(seq.num_args() - 1)
+            if z3.is_app(last) and last.decl().kind() == z3.Z3_OP_SEQ_UNIT:
+                rest = [seq.arg(i) for i in range(seq.num_args() - 1)]
+                r = rest[0] if len(rest) == 1 else z3.Concat(*rest)
+                I.U.axioms.append(f.sfn(seq) == z3.And(f.sfn(r), f.pred(last.arg(0))))
+
+    def inv_flip(I, st, pre):
+        k, ck, cn, in_n0, target, other, useq, was = parts(I, st)
+        F, F0 = flags(I, st), holder["F0"]
+        seen = z3.Contains(pre.seq, z3.Unit(k))
+        f = holder["upd_ok"]
+        unfold_append(I, f, useq)
+        unfold_append(I, holder["no_k"], useq)
+        rec = z3.Not(holder["no_k"].sfn(useq))           # k's entry is recorded in `updated`
+        return z3.And(
+            f.sfn(useq),
+            z3.Select(F, other) == z3.Select(F0, other),
+            z3.Implies(seen, z3.And(rec == was, z3.Select(F, target) == z3.If(was, I.U.FALSE, z3.Select(F0, target)))),
+            z3.Implies(z3.Not(seen), z3.And(z3.Not(rec), z3.Select(F, target) == z3.Select(F0, target))))
+
+    def havoc_flip(I, st):
+        st.ghost["F_constant"] = z3.Const("F_constant!%d" % I.new_oid(), z3.ArraySort(vm.V, vm.V))
+        upd = st.env.get("updated")
+        if isinstance(upd, Ref):
+            st.heap[upd.oid].seq = I.U.fresh_seq("updated")
+            st.heap[upd.oid].fields.pop("$items", None)
+
+    def inv_restore(I, st, pre):
+        k, ck, cn, in_n0, target, other, useq, was = parts(I, st)
+        F, F0 = flags(I, st), holder["F0"]
+        hk, hn = st.heap[holder["K"].oid], st.heap[holder["N"].oid]
+        in_k = z3.Contains(hk.keys, z3.Unit(k))
+        copied = z3.And(z3.Not(in_n0), z3.Contains(hn.keys, z3.Unit(k)))
+        seen = z3.Not(holder["no_k"].sfn(pre.seq))
+        cleared = z3.If(was, I.U.FALSE, z3.Select(F0, target))      # the flag of obj.param[k] inside the block
+        f = lambda o: z3.Select(F, o)
+        f0 = lambda o: z3.Select(F0, o)
+        # before k's entry is restored the flags are as inside the block; afterwards both are what
+        # they were on entry (a copy made inside the block ends with the class-level flag)
+        return z3.Implies(z3.Or(in_k, in_n0), z3.If(
+            in_n0,
+            z3.And(z3.Implies(in_k, f(ck) == f0(ck)), f(cn) == z3.If(seen, f0(cn), cleared)),
+            z3.And(f(ck) == z3.If(seen, f0(ck), cleared),
+                   z3.Implies(copied, f(cn) == z3.If(seen, f0(ck), cleared)))))
+
+    def havoc_restore(I, st):
+        st.ghost["F_constant"] = z3.Const("F_constant!%d" % I.new_oid(), z3.ArraySort(vm.V, vm.V))
+
+    def restore_elem_facts(I, st, x):
+        n = vm.titem(x, 0)
+        return union_facts(n) + distinct_facts(n)
+
+    def post(I, info, st, oc):
+        k, ck, cn, in_n0, target, other, useq, was = parts(I, st)
+        hk = st.heap[holder["K"].oid]
+        F, F0 = flags(I, st), holder["F0"]
+        how = "raise" if isinstance(oc, Raise) else "return"
+        out = [("exit/class-level constant flag of every parameter is what it was on entry[%s]" % how,
+                z3.Implies(z3.Contains(hk.keys, z3.Unit(k)), z3.Select(F, ck) == z3.Select(F0, ck))),
+               ("exit/instance-level constant flag of every parameter is what it was on entry[%s]" % how,
+                z3.Implies(in_n0, z3.Select(F, cn) == z3.Select(F0, cn))),
+               ("exit/an instance-level copy made inside the block ends with the class-level flag[%s]" % how,
+                z3.Implies(z3.And(z3.Contains(hk.keys, z3.Unit(k)), z3.Not(in_n0),
+                                  z3.Contains(st.heap[holder["N"].oid].keys, z3.Unit(k))), z3.Select(F, cn) == z3.Select(F0, ck)))]
+        fb = st.ghost.get("flags_in_body")
+        if fb is not None:
+            out.append(("inside the block the parameter is editable, and only the object that answers obj.param[k] was touched[%s]" % how,
+                        z3.Implies(z3.Or(z3.Contains(hk.keys, z3.Unit(k)), in_n0),
+                                   z3.And(z3.Not(vm.truthy(z3.Select(fb, target))), z3.Select(fb, other) == z3.Select(F0, other)))))
+        else:
+            out.append(("the block is entered", z3.BoolVal(False)))
+        if isinstance(oc, Raise):
+            out.append(("exception propagates", z3.BoolVal(oc.cls == "$User")))
+        return out
+    loops = {("edit_constant", "kls_params | inst_params"): LoopSpec("kls_params | inst_params", inv=inv_flip, heap=havoc_flip, name="flip-constants",
+                                                                      elem_facts=lambda I, st, x: union_facts(x) + distinct_facts(x)),
+             ("edit_constant", "updated"): LoopSpec("updated", inv=inv_restore, heap=havoc_restore, name="restore-constants",
+                                                    elem_facts=restore_elem_facts)}
+    c = FunctionContract("param.parameterized:edit_constant", "C14", setup, post, configure=configure, loops=loops, name="edit_constant")
+    c.runner = runner
+    c.static_replay = EDIT_CONSTANT_REPLAY
+    c.static_witness = "edit_constant(obj) scenarios: class- or instance-level constant parameter, copy made inside the block or not, normal or exceptional exit"
+    return c
+
+
+_c14_base = contracts
+
+
+def contracts():
+    return _c14_base() + [edit_constant_contract()]
